@@ -494,9 +494,16 @@ func c06Predicates(e *Env) {
 			if _, fl, isF := core.FieldOf(st.Addr); !isF || fl != "start" {
 				return
 			}
-			now, isCall := core.Resolve(st.Val).(*ssa.Call)
-			if !isCall || core.CalleeName(now) != "time.Now" {
-				why = "start is not time.Now()"
+			var now *ssa.Call
+			for _, v := range core.ResolveIn(f, st.Val) {
+				c, isCall := v.(*ssa.Call)
+				if !isCall || core.CalleeName(c) != "time.Now" {
+					why = "start is not time.Now()"
+					return
+				}
+				now = c
+			}
+			if now == nil {
 				return
 			}
 			ok = len(acqs) == 1
